@@ -23,6 +23,11 @@ package main
 // a variable of an enclosing block gets a fresh Lean name), logging calls skipped with a note.  In these
 // targets every operand type is checked; an `if` whose branches assign nothing is still translated, so that
 // anything unsupported inside it is reported rather than dropped.
+//
+// Targets with `Elem` (the timeout collector, Props/C08Gen) add slices as values: a slice field / local / result of
+// an opaque element type is a Lean list, struct fields of the elements are accessor parameters (`FieldAcc`), and a
+// few idioms of `append`, `make`, `len`, `slices.ContainsFunc`, `slices.DeleteFunc`, one filtering `for range` loop
+// and the nil initialisation are translated — see "slice forms" below for the rules that keep this exact.
 
 import (
 	"fmt"
@@ -58,6 +63,9 @@ type methodTarget struct {
 	ExtFn   map[string][]string    // "<ext>.<M>" -> argument Lean types..., result Lean type: a call usable inside expressions
 	Params  []string               // if set: the fixed list of function parameters "(name : type)" that every def of the target takes, in this order
 	Deq     []string               // type variables with decidable equality (`==`, `!=` on their values)
+	// extensions for slices as values (proof agent S17: the timeout collector); see "slice forms" below
+	Elem     map[string]string // Lean list type -> Lean element type ("List T" -> "T"); non-nil switches the slice forms on
+	FieldAcc map[string]string // "<T>.<GoField>" -> Lean type: struct field read `x.F` of an opaque value x : T, a parameter `T_F : T → R`
 }
 
 var methodTargets = []methodTarget{
@@ -72,6 +80,13 @@ var methodTargets = []methodTarget{
 	rulesTarget("protocol/rules/chainedhotstuff.go", "ChainedHotStuff", []string{"bLock"}, "RulesChained"),
 	rulesTarget("protocol/rules/fasthotstuff.go", "FastHotStuff", nil, "RulesFast"),
 	rulesTarget("protocol/rules/simplehotstuff.go", "SimpleHotStuff", []string{"locked"}, "RulesSimple"),
+	{File: "protocol/synchronizer/timeout_collector.go", Recv: "timeoutCollector", Fields: []string{"timeouts"}, Sync: []string{"config"},
+		Methods: []string{"add", "deleteOldViews"}, Out: "TimeoutCollector", TypeVars: []string{"T"},
+		Types:    map[string]string{"hotstuff.TimeoutMsg": "T", "[]hotstuff.TimeoutMsg": "List T", "hotstuff.View": "Int"},
+		Elem:     map[string]string{"List T": "T"},
+		FieldAcc: map[string]string{"T.View": "Int", "T.ID": "Int"},
+		ExtFn:    map[string][]string{"config.QuorumSize": {"Int"}},
+		Params:   []string{"(T_View : T → Int)", "(T_ID : T → Int)", "(config_QuorumSize : Int)"}},
 }
 
 // rulesTarget: CommitRule / VoteRule (and the helper qcRef where the ruleset has one) of a consensus ruleset.
@@ -103,20 +118,23 @@ func rulesTarget(file, recv string, fields []string, out string) methodTarget {
 }
 
 type mtr struct {
-	fset   *token.FileSet
-	tg     methodTarget
-	recv   string // receiver variable name
-	ftype  map[string]string
-	err    error
-	notes  []string
-	checks []string            // pending index checks of the statement being translated
-	vtype  map[string]string   // Lean type of parameters, fields (by Lean variable name) and locals where known
-	used   []string            // function parameters (accessors, external calls) used by the method, "name : type"
-	resTy  []string            // Lean result types of the method being translated
-	ren    map[string]string   // Go name -> Lean name, for locals that shadow a variable of an enclosing block
-	fresh  int                 // counter for such names
-	sib    map[string][]string // methods of the target translated so far -> their Lean result types (for calls `recv.m(...)`)
-	sparam map[string]bool     // parameters of struct type (expanded into one argument per field)
+	fset      *token.FileSet
+	tg        methodTarget
+	recv      string // receiver variable name
+	ftype     map[string]string
+	err       error
+	notes     []string
+	checks    []string            // pending index checks of the statement being translated
+	vtype     map[string]string   // Lean type of parameters, fields (by Lean variable name) and locals where known
+	used      []string            // function parameters (accessors, external calls) used by the method, "name : type"
+	resTy     []string            // Lean result types of the method being translated
+	ren       map[string]string   // Go name -> Lean name, for locals that shadow a variable of an enclosing block
+	fresh     int                 // counter for such names
+	sib       map[string][]string // methods of the target translated so far -> their Lean result types (for calls `recv.m(...)`)
+	sparam    map[string]bool     // parameters of struct type (expanded into one argument per field)
+	cur       *mctx               // context of the statement being translated (slice forms: closure parameters must not capture)
+	slicesPkg bool                // the file imports the standard package "slices" under its own name
+	mutOK     bool                // inside `X = append(X, …)` / `X = slices.DeleteFunc(X, …)` (slice forms)
 }
 
 // id: the Lean name of a Go variable
@@ -300,6 +318,9 @@ func (t *mtr) expr(e ast.Expr) string {
 				return v
 			}
 		}
+		if r, ok := t.fieldRead(x); ok {
+			return r
+		}
 		return t.fail(e, "selector")
 	case *ast.IndexExpr:
 		if f, ok := t.isField(x.X); ok && t.modelled(f) && t.ftype[f] == "[]any" {
@@ -362,6 +383,11 @@ func (t *mtr) expr(e ast.Expr) string {
 		if exprName(x.Fun) == "len" && len(x.Args) == 1 {
 			if f, ok := t.isField(x.Args[0]); ok && t.modelled(f) && t.ftype[f] == "[]any" {
 				return "(" + fieldVar(t.recv, f) + ".length : Int)"
+			}
+		}
+		if t.tg.Elem != nil {
+			if r, ok := t.listCall(x); ok {
+				return r
 			}
 		}
 		return t.fail(e, "call")
@@ -538,6 +564,9 @@ func (t *mtr) assignedVars(list []ast.Stmt, scope map[string]bool) []string {
 			case *ast.IndexExpr:
 				add("inb")
 			case *ast.CallExpr:
+				if id, ok := x.Fun.(*ast.Ident); ok && id.Name == "make" && t.tg.Elem != nil {
+					add("inb") // make panics on a negative size
+				}
 				if se, ok := x.Fun.(*ast.SelectorExpr); ok && t.tg.Ptr != nil {
 					if _, acc := t.tg.Accessors[se.Sel.Name]; acc {
 						add("inb") // a dereference: may clear the flag
@@ -728,6 +757,7 @@ func (t *mtr) block(list []ast.Stmt, c *mctx, ind string, rest func(c *mctx, ind
 	}
 	s, tail := list[0], list[1:]
 	next := func(c *mctx, ind string) string { return t.block(tail, c, ind, rest) }
+	t.cur = c
 	if t.syncOnly(s) {
 		t.notes = append(t.notes, "skipped (synchronisation only): "+strings.Join(strings.Fields(t.src(s)), " "))
 		return next(c, ind)
@@ -766,6 +796,14 @@ func (t *mtr) block(list []ast.Stmt, c *mctx, ind string, rest func(c *mctx, ind
 					t.use(fmt.Sprintf("(%s : %s)", t.tg.Ptr[t.resTy[i]], t.resTy[i]))
 					rs = append(rs, t.tg.Ptr[t.resTy[i]]) // nil pointer
 					continue
+				}
+				if id, ok := r.(*ast.Ident); ok && id.Name == "nil" && i < len(t.resTy) && t.tg.Elem[t.resTy[i]] != "" {
+					rs = append(rs, t.typed("([] : "+t.resTy[i]+")", t.resTy[i])) // nil slice
+					continue
+				}
+				if t.tg.Elem != nil && t.aliasOfField(r) {
+					t.fail(s, "returns a slice that aliases a field")
+					return ""
 				}
 				if id, ok := r.(*ast.Ident); ok && id.Name == "nil" && i < len(t.resTy) && t.resTy[i] == "Bool" {
 					rs = append(rs, "false") // nil error
@@ -854,7 +892,14 @@ func (t *mtr) block(list []ast.Stmt, c *mctx, ind string, rest func(c *mctx, ind
 			t.fail(s, "assign target")
 			return ""
 		}
+		if t.tg.Elem != nil {
+			if why := t.listAssignCheck(x); why != "" {
+				t.fail(s, why)
+				return ""
+			}
+		}
 		r := t.expr(x.Rhs[0])
+		t.mutOK = false
 		if id, isId := x.Lhs[0].(*ast.Ident); isId && t.tg.Params != nil {
 			if id.Name == "_" {
 				t.fail(s, "assignment to the blank identifier")
@@ -917,7 +962,10 @@ func (t *mtr) block(list []ast.Stmt, c *mctx, ind string, rest func(c *mctx, ind
 				return next(c, ind)
 			})
 		}
-		cnd := t.cond(x.Cond)
+		cnd, idiom := t.nilInitIdiom(x)
+		if !idiom {
+			cnd = t.cond(x.Cond)
+		}
 		pre := t.flushChecks(ind)
 		var elseList []ast.Stmt
 		if x.Else != nil {
@@ -995,8 +1043,274 @@ func (t *mtr) block(list []ast.Stmt, c *mctx, ind string, rest func(c *mctx, ind
 		}
 		return sb.String() + next(c, ind)
 	}
+	if rs, ok := s.(*ast.RangeStmt); ok && t.tg.Elem != nil {
+		if line, ok := t.filterLoop(rs, c, ind); ok {
+			return line + next(c, ind)
+		}
+		t.fail(s, "loop outside the shape `for _, t := range xs { if COND { ys = append(ys, t) } }`")
+		return ""
+	}
 	t.fail(s, "statement")
 	return ""
+}
+
+// ---- slice forms (targets with Elem; proof agent S17) ----
+//
+// A slice is the Lean list of its elements; `nil` and an empty slice are both `[]`.  That is exact only while no
+// two live slices share a backing array and nothing tells nil from empty, so the subset is kept to the idioms that
+// guarantee it: `X = append(X, e)`, `X = slices.DeleteFunc(X, f)` (the result replaces the argument), no plain
+// assignment of one slice variable to another, no return of a field's slice, `== nil` only in
+// `if X == nil { X = make([]E, 0, cap) }` (an empty list either way).  `make` with a negative size panics in Go:
+// that is a check of the `inb` flag (in the nil-initialisation the check is also made for an empty non-nil X,
+// where Go does not evaluate the size: the flag errs on the safe side).  Closures are `func(p E) bool { return
+// COND }` only; their parameter must not have the name of a variable in scope.
+
+func (t *mtr) isList(ty string) bool { return ty != "" && t.tg.Elem[ty] != "" }
+
+func unparen(e ast.Expr) ast.Expr {
+	for {
+		p, ok := e.(*ast.ParenExpr)
+		if !ok {
+			return e
+		}
+		e = p.X
+	}
+}
+
+// builtin: the identifier `name`, not redeclared in the file
+func builtin(e ast.Expr, name string) bool {
+	id, ok := e.(*ast.Ident)
+	return ok && id.Name == name && id.Obj == nil
+}
+
+// slicesFn: `slices.<name>` of the standard package
+func (t *mtr) slicesFn(e ast.Expr, name string) bool {
+	se, ok := e.(*ast.SelectorExpr)
+	return ok && t.slicesPkg && builtin(se.X, "slices") && se.Sel.Name == name
+}
+
+// fieldRead: `x.F` for a variable x of an opaque type T with FieldAcc["T.F"]
+func (t *mtr) fieldRead(x *ast.SelectorExpr) (string, bool) {
+	id, ok := x.X.(*ast.Ident)
+	if t.tg.FieldAcc == nil || !ok || id.Name == t.recv {
+		return "", false
+	}
+	v := t.id(id.Name)
+	ty := t.vtype[v]
+	rty, ok := t.tg.FieldAcc[ty+"."+x.Sel.Name]
+	if !ok || ty == "" {
+		return "", false
+	}
+	fn := ty + "_" + x.Sel.Name
+	t.use(fmt.Sprintf("(%s : %s → %s)", fn, ty, rty))
+	return t.typed("("+fn+" "+v+")", rty), true
+}
+
+// bound: the Go bool expression `cond` with the Go variable `name` bound to a value of type elem, as
+// `decide COND` under the Lean binder that is returned
+func (t *mtr) bound(name, elem string, cond ast.Expr) (string, string, bool) {
+	v := leanIdent(name)
+	if name == "_" || t.cur == nil || t.cur.scope[v] || inList(t.paramNames(), v) || v == "inb" || v == "r'" || v == "p'" {
+		return "", "", false
+	}
+	savedRen, hadRen := t.ren[name]
+	delete(t.ren, name)
+	savedTy, hadTy := t.vtype[v]
+	t.vtype[v] = elem
+	n := len(t.checks)
+	c := t.cond(cond)
+	ok := len(t.checks) == n // a panic check under the binder cannot be lifted out of it
+	if hadRen {
+		t.ren[name] = savedRen
+	}
+	if hadTy {
+		t.vtype[v] = savedTy
+	} else {
+		delete(t.vtype, v)
+	}
+	return v, "(decide " + c + ")", ok
+}
+
+// closure: `func(p E) bool { return COND }`
+func (t *mtr) closure(e ast.Expr, elem string) (string, string, bool) {
+	fl, ok := e.(*ast.FuncLit)
+	if !ok {
+		return "", "", false
+	}
+	ps, rs := fl.Type.Params.List, fl.Type.Results
+	if len(ps) != 1 || len(ps[0].Names) != 1 || t.lt(t.src(ps[0].Type)) != elem {
+		return "", "", false
+	}
+	if rs == nil || len(rs.List) != 1 || len(rs.List[0].Names) != 0 || t.src(rs.List[0].Type) != "bool" {
+		return "", "", false
+	}
+	if len(fl.Body.List) != 1 {
+		return "", "", false
+	}
+	ret, ok := fl.Body.List[0].(*ast.ReturnStmt)
+	if !ok || len(ret.Results) != 1 {
+		return "", "", false
+	}
+	return t.bound(ps[0].Names[0].Name, elem, ret.Results[0])
+}
+
+func isZeroLit(e ast.Expr) bool {
+	bl, ok := e.(*ast.BasicLit)
+	return ok && bl.Kind == token.INT && bl.Value == "0"
+}
+
+// listCall: len, make, slices.ContainsFunc and (inside `X = …(X, …)` only) append, slices.DeleteFunc
+func (t *mtr) listCall(x *ast.CallExpr) (string, bool) {
+	mut := t.mutOK
+	t.mutOK = false
+	switch {
+	case builtin(x.Fun, "len") && len(x.Args) == 1:
+		a := t.expr(x.Args[0])
+		if t.isList(t.vtype[a]) {
+			return t.typed("("+a+".length : Int)", "Int"), true
+		}
+	case builtin(x.Fun, "make") && len(x.Args) == 3 && isZeroLit(x.Args[1]):
+		// make([]E, 0, cap): an empty slice; panics if cap < 0
+		if at, ok := x.Args[0].(*ast.ArrayType); ok && at.Len == nil {
+			if ty := t.lt(t.src(at)); t.isList(ty) {
+				n := t.expr(x.Args[2])
+				if t.vtype[n] != "Int" {
+					return "", false
+				}
+				t.checks = append(t.checks, fmt.Sprintf("(decide (0 ≤ %s))", n))
+				return t.typed("([] : "+ty+")", ty), true
+			}
+		}
+	case t.slicesFn(x.Fun, "ContainsFunc") && len(x.Args) == 2:
+		xs := t.expr(x.Args[0])
+		if ty := t.vtype[xs]; t.isList(ty) {
+			if v, d, ok := t.closure(x.Args[1], t.tg.Elem[ty]); ok {
+				return t.typed("("+xs+".any (fun "+v+" => "+d+"))", "Bool"), true
+			}
+		}
+	case t.slicesFn(x.Fun, "DeleteFunc") && len(x.Args) == 2 && mut:
+		xs := t.expr(x.Args[0])
+		if ty := t.vtype[xs]; t.isList(ty) {
+			if v, d, ok := t.closure(x.Args[1], t.tg.Elem[ty]); ok {
+				return t.typed("("+xs+".filter (fun "+v+" => !"+d+"))", ty), true
+			}
+		}
+	case builtin(x.Fun, "append") && len(x.Args) == 2 && mut:
+		xs := t.expr(x.Args[0])
+		if ty := t.vtype[xs]; t.isList(ty) {
+			y := t.expr(x.Args[1])
+			if x.Ellipsis == token.NoPos && t.vtype[y] == t.tg.Elem[ty] {
+				return t.typed("("+xs+" ++ ["+y+"])", ty), true
+			}
+		}
+	}
+	return "", false
+}
+
+// isListVar: a variable or modelled field of slice type
+func (t *mtr) isListVar(e ast.Expr) bool {
+	e = unparen(e)
+	if id, ok := e.(*ast.Ident); ok {
+		return t.isList(t.vtype[t.id(id.Name)])
+	}
+	if f, ok := t.isField(e); ok && t.modelled(f) {
+		return t.isList(t.vtype[fieldVar(t.recv, f)])
+	}
+	return false
+}
+
+// aliasOfField: a modelled field of slice type
+func (t *mtr) aliasOfField(e ast.Expr) bool {
+	f, ok := t.isField(unparen(e))
+	return ok && t.modelled(f) && t.isList(t.vtype[fieldVar(t.recv, f)])
+}
+
+// listAssignCheck: the rules that keep slices values (see above); "" if the assignment is fine
+func (t *mtr) listAssignCheck(x *ast.AssignStmt) string {
+	rhs := unparen(x.Rhs[0])
+	if t.isListVar(rhs) {
+		return "assignment makes two slices share their elements"
+	}
+	if call, ok := rhs.(*ast.CallExpr); ok && (builtin(call.Fun, "append") || t.slicesFn(call.Fun, "DeleteFunc")) {
+		if x.Tok != token.ASSIGN || len(call.Args) != 2 || t.src(x.Lhs[0]) != t.src(call.Args[0]) {
+			return "append / slices.DeleteFunc whose result does not replace its first argument"
+		}
+		t.mutOK = true
+	}
+	return ""
+}
+
+// nilInitIdiom: `if X == nil { X = make([]E, 0, cap) }` — X is an empty list afterwards if it was one before
+func (t *mtr) nilInitIdiom(x *ast.IfStmt) (string, bool) {
+	if t.tg.Elem == nil || x.Init != nil || x.Else != nil || len(x.Body.List) != 1 {
+		return "", false
+	}
+	be, ok := x.Cond.(*ast.BinaryExpr)
+	if !ok || be.Op != token.EQL || !builtin(be.Y, "nil") || !t.isListVar(be.X) {
+		return "", false
+	}
+	as, ok := x.Body.List[0].(*ast.AssignStmt)
+	if !ok || as.Tok != token.ASSIGN || len(as.Lhs) != 1 || len(as.Rhs) != 1 || t.src(as.Lhs[0]) != t.src(be.X) {
+		return "", false
+	}
+	call, ok := as.Rhs[0].(*ast.CallExpr)
+	if !ok || !builtin(call.Fun, "make") || len(call.Args) != 3 || !isZeroLit(call.Args[1]) {
+		return "", false
+	}
+	return "(" + t.expr(be.X) + ".isEmpty = true)", true
+}
+
+// filterLoop: `for _, v := range xs { if COND { ys = append(ys, v) } }`  ↦  ys := ys ++ xs.filter (fun v => COND)
+func (t *mtr) filterLoop(rs *ast.RangeStmt, c *mctx, ind string) (string, bool) {
+	val, okv := rs.Value.(*ast.Ident)
+	if !builtinBlank(rs.Key) || !okv || val.Name == "_" || rs.Tok != token.DEFINE || len(rs.Body.List) != 1 {
+		return "", false
+	}
+	ifs, ok := rs.Body.List[0].(*ast.IfStmt)
+	if !ok || ifs.Init != nil || ifs.Else != nil || len(ifs.Body.List) != 1 {
+		return "", false
+	}
+	as, ok := ifs.Body.List[0].(*ast.AssignStmt)
+	if !ok || as.Tok != token.ASSIGN || len(as.Lhs) != 1 || len(as.Rhs) != 1 {
+		return "", false
+	}
+	ys, ok := as.Lhs[0].(*ast.Ident)
+	call, okc := as.Rhs[0].(*ast.CallExpr)
+	if !ok || !okc || !builtin(call.Fun, "append") || len(call.Args) != 2 || call.Ellipsis != token.NoPos {
+		return "", false
+	}
+	a0, ok0 := call.Args[0].(*ast.Ident)
+	a1, ok1 := call.Args[1].(*ast.Ident)
+	if !ok0 || !ok1 || a0.Name != ys.Name || a1.Name != val.Name || ys.Name == val.Name || ys.Name == "_" {
+		return "", false
+	}
+	yv := t.id(ys.Name)
+	xs := t.expr(rs.X)
+	ty := t.vtype[xs]
+	if !t.isList(ty) || !c.scope[yv] || t.vtype[yv] != ty {
+		return "", false
+	}
+	mentions := false
+	ast.Inspect(ifs.Cond, func(n ast.Node) bool {
+		if id, ok := n.(*ast.Ident); ok && id.Name == ys.Name {
+			mentions = true
+		}
+		return true
+	})
+	if mentions {
+		return "", false // the condition would see the list grow
+	}
+	t.cur = c
+	v, d, ok := t.bound(val.Name, t.tg.Elem[ty], ifs.Cond)
+	if !ok {
+		return "", false
+	}
+	return t.flushChecks(ind) + fmt.Sprintf("%slet %s := (%s ++ %s.filter (fun %s => %s))\n", ind, yv, yv, xs, v, d), true
+}
+
+func builtinBlank(e ast.Expr) bool {
+	id, ok := e.(*ast.Ident)
+	return ok && id.Name == "_"
 }
 
 func (t *mtr) method(fd *ast.FuncDecl) (string, error) {
@@ -1147,6 +1461,11 @@ func translateMethods(repo, outDir string) ([]fnOut, error) {
 		}
 		t := &mtr{fset: fset, tg: tg, ftype: map[string]string{}}
 		if err == nil {
+			for _, im := range f.Imports {
+				if im.Path.Value == `"slices"` && im.Name == nil {
+					t.slicesPkg = true
+				}
+			}
 			for _, d := range f.Decls {
 				gd, ok := d.(*ast.GenDecl)
 				if !ok {
